@@ -548,6 +548,17 @@ func (w *World) crashRestart() {
 	}
 	synctest.Wait()
 	w.processCommits()
+	if w.plan.Faults.Reconfig {
+		for _, sp := range w.plan.Sources {
+			ss := w.srcs[sp.Name]
+			if w.st.Draw(2, "reconfig") == 1 {
+				ss.batch = 1 + w.st.Draw(12, "reconfig-batch")
+				ss.conc = 1 + w.st.Draw(6, "reconfig-conc")
+				w.stat("probe_restart_with_other_batch", 1)
+				w.logf("reconfig %s batch=%d conc=%d", sp.Name, ss.batch, ss.conc)
+			}
+		}
+	}
 	if err := w.startGeneration(); err != nil {
 		w.harnessFail("restart: %v", err)
 	}
